@@ -241,11 +241,24 @@ def check_testbench(ctx, d, label, simcls):
     regmap, memmap, dflt = gen.rand_init(rng, d)
     add_reset = rng.choice(RESETS)
     sname = simcls.__name__
-    run = simrun.run_real(simcls, block, steps, regmap, memmap, dflt)
+    bools = simcls is not pyrtl.CompiledSimulation and rng.random() < 0.5
+    ctx.count('tb-one-bit-inputs-as-bool', bools)
+    run = simrun.run_real(simcls, block, steps, regmap, memmap, dflt, bool_inputs=bools)
     if run['err'] is not None or run['sim'] is None:
         ctx.count('tb-skipped', 'simulation error')
         return True
-    spec = ctx.driver.ask(simrun.lean_request(ser, steps, regmap, memmap, dflt, model='spec', watch=[]))
+    # (CompiledSimulation applies default_value to registers only: its unwritten memory words read 0, and the write-conflict
+    # cycle below has to be computed from the contents the simulation really had)
+    memmap_spec, dflt_spec = memmap, dflt
+    if simcls is pyrtl.CompiledSimulation and dflt:
+        rams_ = [m_ for m_ in d.mems if not isinstance(m_, RomBlock)]
+        if all(m_.addrwidth <= 10 for m_ in rams_):
+            memmap_spec = dict(memmap)
+            for m_ in rams_:
+                memmap_spec[m_] = {a_: memmap.get(m_, {}).get(a_, 0) for a_ in range(1 << m_.addrwidth)}
+        else:
+            dflt_spec = 0
+    spec = ctx.driver.ask(simrun.lean_request(ser, steps, regmap, memmap_spec, dflt_spec, model='spec', watch=[]))
     replay = {'kind': 'testbench', 'label': label, 'simulator': sname, 'add_reset': add_reset, 'block': ser.data, 'steps': steps,
               'regmap': {r.name: v for r, v in regmap.items()}, 'memmap': {m.name: v for m, v in memmap.items()}, 'default': dflt}
     kw = {}
@@ -406,7 +419,7 @@ def main(ctx):
             # replacements the exporter makes up
             ws_ = sorted((w for w in d.block.wirevector_set if not isinstance(w, pyrtl.Const)
                           and w.name not in ('tb_iter', 'block')), key=lambda w: w.name)
-            if len(ws_) >= 3:
+            if len(ws_) >= 3 and not ({'_ver_out_tmp_0', '_ver_out_tmp_1'} & {w.name for w in d.block.wirevector_set}):
                 picks = rng.sample(ws_, 3)
                 try:
                     picks[0].name = rng.choice(['A.', '9', 'Z-']) + 'x%d' % k
@@ -441,7 +454,8 @@ def main(ctx):
                 pass
         try:
             d.block.sanity_check()
-        except pyrtl.PyrtlError:
+        except (pyrtl.PyrtlError, pyrtl.PyrtlInternalError):
+            ctx.count('design-skipped', 'renaming left the block ill-formed')
             continue
         if d.block.logic_subset('n'):
             continue      # nand is outside the exportable subset
